@@ -1058,11 +1058,29 @@ def task_annotations():
         ann0 = interp.getattr(root, 'annotation')
         tgt0 = interp.getattr(root, 'target')
         val0 = interp.getattr(root, 'value')
+        # "the class" of an annotated assignment is the namespace its statement belongs to (a field may be declared inside an if/try/with block of
+        # the class body); the parent statement is a different node in general
+        from contracts.scopes import NAMESPACE_TAGS
+        klass = ctx.new_node(NAMESPACE_TAGS, name='namespace_of_root')
+        ctx.data(root).fields['namespace'] = klass
+        BLOCKS = {'If', 'For', 'AsyncFor', 'While', 'Try', 'TryStar', 'With', 'AsyncWith', 'match_case', 'ExceptHandler'}
+        base_hook = interp.hooks['python_minifier.ast_annotation:get_parent']
+
+        def parent_hook(it, f, args, kwargs):
+            # AST shape: the parent of a statement is its namespace node itself, or a block statement nested in that namespace
+            if args[0] == root and root.id not in policy.parents:
+                if ctx.branch(z3.Bool('statement_is_directly_in_the_body_of_its_namespace')):
+                    policy.parents[root.id] = klass
+                else:
+                    policy.parents[root.id] = ctx.new_node(BLOCKS, name='parent_of_root')
+            return base_hook(it, f, args, kwargs)
+        interp.hooks['python_minifier.ast_annotation:get_parent'] = parent_hook
         r = interp.call(interp.getattr(o, 'visit_AnnAssign'), [root], {})
         pruned.update(interp.pruned)
-        parent = policy.parents.get(root.id)
-        pd = ctx.data(parent) if parent is not None else None
-        in_class = pd.tagvar == tag_const('ClassDef') if pd is not None else z3.BoolVal(False)
+        stmt_parent = policy.parents.get(root.id)
+        parent = klass
+        pd = ctx.data(klass)
+        in_class = pd.tagvar == tag_const('ClassDef')
         selected = z3.If(in_class, flags['remove_class_attribute_annotations'], flags['remove_variable_annotations'])
         rd = ctx.data(root)
         changed = not (r == root and rd.fields['annotation'] == ann0)
@@ -1120,8 +1138,8 @@ def task_annotations():
                 and d.fields.get('value') == val0 and val0 is not None
             ctx.check(name + '.visit_AnnAssign/annotated-assignment-with-value-becomes-plain-assignment', bool(ok), kind='post', detail=repr(r))
             adds = [e for e in policy.events if e[0] == 'add_child']
-            ctx.check(name + '.visit_AnnAssign/replacement-keeps-parent-and-namespace', len(adds) == 1 and adds[0][2] == parent and
-                      adds[0][3] == Opaque('namespace_of', ('root',), sort='node'), kind='post', detail=repr(adds))
+            ctx.check(name + '.visit_AnnAssign/replacement-keeps-parent-and-namespace', len(adds) == 1 and adds[0][2] == stmt_parent and
+                      adds[0][3] == klass, kind='post', detail=repr(adds))
         else:
             a1 = rd.fields['annotation']
             ok = isinstance(a1, Obj) and ctx.data(a1).tags == {'Constant'} and ctx.data(a1).fields.get('value') == 0 and val0 is None \
